@@ -929,6 +929,18 @@ func (e *Engine) evalCall(st *State, env *cenv, x *CExpr) (Val, error) {
 			return Val{}, err
 		}
 		return Val{K: KInt, T: "(pow2 " + v.T + ")", Ty: types.Typ[types.Int]}, nil
+	case "box": // box(x): the interface value holding x (dynamic type = static type of x)
+		v, err := e.evalC(st, env, args[0])
+		if err != nil {
+			return Val{}, err
+		}
+		if v.Ty == nil {
+			return Val{}, fmt.Errorf("box() of untyped value")
+		}
+		if v.K == KIface {
+			return v, nil
+		}
+		return e.makeIface(st, v, v.Ty, types.NewInterfaceType(nil, nil)), nil
 	case "typeis": // typeis(x, T): dynamic type of interface value x is T
 		v, err := e.evalC(st, env, args[0])
 		if err != nil {
